@@ -258,6 +258,9 @@ func runC02(r *core.Run) {
 			return core.Outcome{Class: c.Layout, Nontrivial: c.Len >= 2, Evals: 4}
 		})
 
+	interleavedReadersFor(r, []string{"fastq"})
+	bigFiles(r, "fastq", []int{0})
+
 	r.Bound("marked-offsets", markBounds+"; fields name / sequence / qualities, bytes '@' and '+'"+core.Pick(r, "", " and ' ', TAB, 0x00, 0xFF"))
 	core.Clause(r, "marked-offsets", core.Opts{Rule: "a format-vocabulary byte at EVERY offset of a long name, sequence or quality string (it meets every internal buffer boundary of the reader); written with Write, read back as the middle record of three; non-trivial = all"},
 		genMarks([]string{"name", "seq", "qual"}, core.Pick(r, []int{'@', '+'}, []int{'@', '+', ' ', '\t', 0x00, 0xFF}), nil),
